@@ -287,23 +287,41 @@ func (e *Engine) yieldPoint(c *Call, label string) []*State {
 			break
 		}
 	}
-	if other < 0 {
+	// once-per-path environment events (kind "stop*"/"crash*"/"any*") may fire at any yield point
+	var others []int
+	if other >= 0 {
+		others = append(others, other)
+	}
+	for i, t := range st.Threads {
+		if i != st.Cur && t.Status == TBlocked && t.Block != nil && t.Block.Kind == "event" {
+			if k, ok := t.Block.Aux.(string); ok && (strings.HasPrefix(k, "stop") || strings.HasPrefix(k, "crash") || strings.HasPrefix(k, "any")) {
+				others = append(others, i)
+			}
+		}
+	}
+	if len(others) == 0 {
 		return nil
 	}
-	// fork: pre-empted variant
-	pre := st.Clone()
-	pre.ID = int(atomic.AddInt32(&e.stateCtr, 1))
-	pth := pre.Threads[th.ID]
-	pth.top().IP-- // retry the call on resume
-	pth.NoYield = true
-	pre.Delays++
-	ot := pre.Threads[other]
-	ot.Status = TRunnable
-	ot.Block = nil
-	pre.Cur = other
-	pre.Nondets = append(pre.Nondets, NondetRec{Tag: "sched.preempt@" + label, Kind: "choice", Conc: 1})
+	var out []*State
+	for _, o := range others {
+		pre := st.Clone()
+		pre.ID = int(atomic.AddInt32(&e.stateCtr, 1))
+		pth := pre.Threads[th.ID]
+		pth.top().IP-- // retry the call on resume
+		pth.NoYield = true
+		pre.Delays++
+		ot := pre.Threads[o]
+		if ot.Block != nil && ot.Block.Kind == "event" {
+			pre.Events = append(pre.Events, Event{Kind: "env-event", Thr: o})
+		}
+		ot.Status = TRunnable
+		ot.Block = nil
+		pre.Cur = o
+		pre.Nondets = append(pre.Nondets, NondetRec{Tag: "sched.preempt@" + label, Kind: "choice", Conc: o})
+		out = append(out, pre)
+	}
 	th.NoYield = false
-	return []*State{pre}
+	return out
 }
 
 func (e *Engine) blockedSummary(st *State) string {
